@@ -471,7 +471,17 @@ class SymInterp(Interp):
             return out
         if name in bin_uf:
             f = bin_uf[name]
-            return lambda a, b, out=None, **k: with_out(ew(lambda x, y: f(rat(x), rat(y)), a, b) if (isinstance(a, SArr) or isinstance(b, SArr)) else f(rat(a), rat(b)), out, k)
+
+            def call(a, b, out=None, **k):
+                return with_out(ew(lambda x, y: f(rat(x), rat(y)), a, b) if (isinstance(a, SArr) or isinstance(b, SArr)) else f(rat(a), rat(b)), out, k)
+
+            def outer(a, b, **k):
+                if k:
+                    raise AnalysisAbort(f"np.{name}.outer keyword(s) {sorted(k)}")
+                a, b = S.asarr(a), S.asarr(b)
+                return SArr(a.shape + b.shape, [f(rat(x), rat(y)) for x in a.data for y in b.data])
+            call._ufunc = {"outer": outer}
+            return call
         if name in cmp_uf:
             return lambda a, b, out=None, **k: with_out(I.data_cmp(cmp_uf[name], a, b), out, k)
         if name in un_uf:
@@ -610,6 +620,23 @@ class SymInterp(Interp):
                 vals = [(rat(int(v)) if isinstance(v, bool) else v) for v in I.iterate(it)]
                 return SArr.from_nested(vals)
             return fromiter
+        if name == "isclose":
+            def isclose(a, b, **kw):
+                def one(x, y):
+                    d = rat(x) - rat(y)
+                    if S.is_small(d):
+                        return rat(1)       # identical, or differing by less than every tolerance
+                    if d.is_const():
+                        # numbers: NumPy's default tolerances
+                        xv, yv = float(rat(x).const()), float(rat(y).const())
+                        rtol, atol = float(kw.get("rtol", 1e-5)), float(kw.get("atol", 1e-8))
+                        return rat(int(abs(xv - yv) <= atol + rtol * abs(yv)))
+                    I.generic_notes.append("np.isclose of generic symbolic values decided False (they are not identical)")
+                    return rat(0)
+                if isinstance(a, SArr) or isinstance(b, SArr):
+                    return S.elementwise(one, a, b)
+                return bool(one(a, b).const())
+            return isclose
         if name == "array_equal":
             def array_equal(a, b, **kw):
                 a, b = S.asarr(a), S.asarr(b)
@@ -831,6 +858,9 @@ class SymInterp(Interp):
         parts = f.name.split(".")
         if parts[:2] == ["scipy", "stats"] and len(parts) == 4:
             return self.dist_call(parts[2], parts[3], args, kwargs)
+        if f.name == "scipy.special.ndtr":
+            (x,) = args
+            return S.elementwise(lambda v: fsym("ndtr", v, sign="nonneg"), x) if isinstance(x, SArr) else fsym("ndtr", x, sign="nonneg")
         if f.name in ("scipy.linalg.solve_triangular",):
             kw = dict(kwargs)
             ow = kw.pop("overwrite_b", False)
@@ -870,6 +900,11 @@ class SymInterp(Interp):
         self.dist_calls.append((dist, method))
 
         def one(*xs):
+            if dist == "norm" and method in ("sf", "cdf") and not (isinstance(rat(xs[2]), Rat) and rat(xs[2]).is_zero()):
+                # the standard normal distribution function of the standardised argument: sf(x; loc, scale) = ndtr(-(x - loc) / scale),
+                # so that an implementation through scipy.special.ndtr is the same symbol
+                z = (rat(xs[0]) - rat(xs[1])) / rat(xs[2])
+                return fsym("ndtr", -z if method == "sf" else z, sign="nonneg")
             return fsym(f"{method}_{dist}", *xs, sign="nonneg")
         if any(isinstance(v, SArr) for v in order):
             return S.elementwise(one, *order)
